@@ -23,7 +23,7 @@ ASSUMES = ["allele frequencies symbolic > 0 summing to one; per-(sample,parent) 
            "target joint: prod_i L_i(g_i) * oracle trio pmf(g_i | parents) (the gamete-pair oracle C17 proves equal to trio_log_pmf)"]
 BOUNDS = {"quick": "pedigrees: diploid founder, diploid duo, diploid trio (parents first and progeny first), tetraploid trio (2 alleles), 2x*4x->3x trio (unbalanced), selfed diploid; all joint states over 2 alleles, every target individual, allele copy and candidate allele; swap move on the trios",
           "thorough": "adds diploid trio with 3 alleles, tetraploid trio with lambda, half-sibs (5 individuals), three generations, clone tau=(0,2), 4x*2x->3x, unknown-parent duo with unbalanced tau"}
-OUTSIDE = "larger pedigrees / ploidies; the read model (C04); float rounding; ergodicity"
+OUTSIDE = "larger pedigrees / ploidies; the read model (C04); float rounding; ergodicity (class-wiring group: PedigreeCallingMCMC.fit -> greedy_caller / mcmc_sampler receive the object's arrays, log frequencies, annealing, step type)"
 TASKS_PER_CHILD = 4
 
 PEDS = {
@@ -70,6 +70,8 @@ def configs(tier):
                 out.append(dict(ped=name, step="swap", pair=pi, lo=lo, hi=min(n, lo + CHUNK)))
         out.append(dict(ped=name, step="blankets"))
     out.append(dict(ped="founder2", step="lemma"))
+    for cls in ("pedigree-gibbs", "pedigree-mh"):  # PedigreeCallingMCMC.fit -> greedy_caller / mcmc_sampler
+        out.append(dict(group="class-wiring", cls=cls, ped="founder2", step="wiring"))
     return out
 
 
@@ -211,6 +213,11 @@ def _with(state, t, k, a):
 
 
 def run_config(c, col):
+    if c.get("group") == "class-wiring":
+        from checks import wiring
+
+        E.use_summaries(True)
+        return wiring.run_class(c, col)
     ped = PEDS[c["ped"]]
     H = Harness(ped)
     prof = E.Profile()
@@ -515,6 +522,10 @@ def _Gnum(ped, state):
 
 
 def replay(v):
+    if v["config"].get("group") == "class-wiring":
+        from checks import wiring
+
+        return wiring.replay_real(v, wiring.run_class)
     ped, m, f, err, lam = _concrete(v)
     c = v["config"]
     w = v["witness"]
